@@ -35,7 +35,7 @@ P = 'circus.process:Process.'
 
 
 def check(run, ctx):
-    run.each(ctx, [r0, r1, r2, r3, r4, r5, r6, r7])
+    run.each(ctx, [r0, r1, r2, r3, r4, r5, r6, r7, r8])
 
 
 def doc_table(ctx):
@@ -475,3 +475,11 @@ def r7(run, ctx):
               astq.has_pattern(t, "$w['hooks'][$h] = $v"),
               'hooks.NAME = callable[,flag]: flag parsed with to_bool, default False', gc, gc.node,
               'the ignore flag of a configured hook is not parsed as documented')
+
+
+def r8(run, ctx):
+    from rules import c02
+    run.share(ctx, c02.r7, 'R7', 'R8', 'a worker refused by after_spawn does not stay alive '
+              '(shared with C02 R7): its kill_process runs after the pid left the table, so every '
+              'signal sent through the watcher is dropped and only the direct terminate() of '
+              'Process.stop takes the refused worker down')
